@@ -107,7 +107,7 @@ def ensure_flavour(flavour):
             with open(stamp, "w") as f:
                 f.write(want)
         t0 = time.time()
-        rc = _run(["ninja", "-C", t], logfile)
+        rc = _run(["ninja", "-C", t] + (["-j", os.environ["VERIF_NINJA_JOBS"]] if os.environ.get("VERIF_NINJA_JOBS") else []), logfile)
         if rc != 0:
             raise BuildError("ninja failed for %s, see %s" % (flavour, logfile))
         dt = time.time() - t0
